@@ -77,6 +77,10 @@ type verifRC struct {
 	nextErr error
 	park    chan struct{} // non-nil: the next Read parks inside the underlying reader
 	parked  bool
+
+	closePark   chan struct{} // non-nil while a Close is stalled inside the underlying closer
+	closeParked bool
+	plain       bool // no more choices (harness cleanup)
 }
 
 func (r *verifRC) Read(p []byte) (int, error) {
@@ -92,11 +96,22 @@ func (r *verifRC) Read(p []byte) (int, error) {
 }
 
 func (r *verifRC) Close() error {
-	// whether closing the files fails is decided when it happens
-	if verifChoice(verifName("closeFails", r.closes), 2) == 1 {
-		r.closeErr = verifErrClose
+	// how closing the files goes is decided when it happens: fine, fails, or takes a while
+	if r.plain {
+		return nil
 	}
+	mode := verifChoice(verifName("closeMode", r.closes), 3)
 	r.closes++
+	switch mode {
+	case 1:
+		r.closeErr = verifErrClose
+	case 2:
+		ch := make(chan struct{})
+		r.closePark = ch
+		r.closeParked = true
+		<-ch
+		r.closeParked = false
+	}
 	return r.closeErr
 }
 
@@ -151,10 +166,13 @@ const verifUnit = int64(time.Second)
 //   - it is released exactly once: the number of outstanding read holds is
 //     (other readers) + 1 before and (other readers) after, never anything else - so a second
 //     EndRead (which would steal another reader's hold, or panic the lock) is a violation;
+//     only while the underlying closer is still running may it be either of the two;
 //   - releasing closes the underlying stream exactly once;
 //   - after an idle expiry Read returns ErrSnapshotReaderTimeout and does not touch the
 //     underlying reader; before it, Read is a pass-through;
-//   - a consumer stalled inside the underlying Read does not keep the hold past the timeout.
+//   - a consumer stalled inside the underlying Read does not keep the hold past the timeout;
+//   - a Close issued at the very instant the idle timer is due may win or lose against the
+//     timer callback; either way all of the above holds.
 func verifC11Streamer(steps int, twin bool) {
 	verifPanicsAreViolations()
 	s := verifBareStore()
@@ -175,28 +193,38 @@ func verifC11Streamer(steps int, twin bool) {
 	l := NewLockingStreamer(rc, s, timeout)
 	now := func() int64 { return int64(time.Since(t0)) }
 
-	ws := []*verifStreamWorker{{cmd: make(chan int)}, {cmd: make(chan int)}}
+	ws := []*verifStreamWorker{{cmd: make(chan int)}, {cmd: make(chan int)}, {cmd: make(chan int)}}
 	for _, w := range ws {
 		go w.run(l)
+		verifSettle() // one at a time: the order in which idle workers start is of no interest
 	}
-	verifSettle()
 	var parkCh chan struct{}
 	defer func() {
 		// leave nothing behind (the native replay runs in a synctest bubble)
+		rc.plain = true
 		if parkCh != nil {
 			close(parkCh)
+			verifSettle()
+		}
+		if rc.closeParked {
+			close(rc.closePark)
+			verifSettle()
 		}
 		for _, w := range ws {
 			close(w.cmd)
+			verifSettle()
 		}
 		l.Close()
 	}()
 
 	// the oracle's own state
-	lastAct := int64(0) // model time of the last activity, relative to t0
-	userClosed := false
-	expired := false
-	parkedWorker := -1
+	lastAct := int64(0)  // model time of the last activity, relative to t0
+	userClosed := false  // a Close has been issued
+	expired := false     // the idle timeout has struck
+	raceUnknown := false // Close and the timer were due at the same instant: either may have won
+	parkedReader := -1   // worker stalled inside the underlying Read
+	var pendingClosers []int
+	firstCloser := -1 // worker whose (stalled) Close is the releasing one
 
 	observe := func() {
 		// idle expiry: exactly when `timeout` has elapsed since the last activity
@@ -209,20 +237,24 @@ func verifC11Streamer(steps int, twin bool) {
 		}
 		released := userClosed || expired
 		readers, writer := verifLockState(s.mrsw)
-		want := others
-		if !released {
-			want++
-		}
 		verifAssert("C11-no-writer-appears", !writer)
 		if twin {
 			verifAssert("twin", readers == others+1)
 			return
 		}
-		verifAssert("C11-hold-released-exactly-once", readers == want)
-		wantCloses := 0
-		if released {
-			wantCloses = 1
+		if rc.closeParked {
+			verifReach("release-in-progress")
+			verifAssert("C11-underlying-close-only-on-release", released && rc.closes == 1)
+			verifAssert("C11-hold-during-release", readers == others || readers == others+1)
+			return
 		}
+		want := others
+		wantCloses := 1
+		if !released {
+			want++
+			wantCloses = 0
+		}
+		verifAssert("C11-hold-released-exactly-once", readers == want)
 		verifAssert("C11-underlying-closed-exactly-once-on-release", rc.closes == wantCloses)
 	}
 	observe()
@@ -231,35 +263,49 @@ func verifC11Streamer(steps int, twin bool) {
 	const (
 		kRead = iota
 		kClose
+		kRaceClose
 		kStall
 		kUnstall
+		kUnstallClose
 		kSleep
 	)
 	for st := 0; st < steps; st++ {
 		// operations possible now
 		released := userClosed || expired
 		var ops []opT
-		for g, w := range ws {
-			// The code under test keeps no per-goroutine state, so which goroutine issues an
-			// operation only matters while the other one is stalled inside a Read: worker 1
-			// acts exactly then.
-			if w.busy || (g == 1) != (parkedWorker == 0) {
-				continue
+		// The code under test keeps no per-goroutine state, so which goroutine issues an operation
+		// does not matter: the first worker that is not stuck inside an earlier one does.
+		g := -1
+		for i, w := range ws {
+			if !w.busy {
+				g = i
+				break
 			}
+		}
+		if g >= 0 {
 			ops = append(ops, opT{kRead, g, 3}, opT{kClose, g, 0}) // Read returning data, Close
 			if !released {
 				ops = append(ops, opT{kRead, g, 0}) // Read returning no data (and an error)
-				if parkedWorker < 0 {
+				if parkedReader < 0 {
 					ops = append(ops, opT{kStall, g, 3}) // Read that stalls inside the underlying reader
+				}
+				if timeout > 0 {
+					ops = append(ops, opT{kRaceClose, g, 0}) // Close at the instant the idle timer is due
 				}
 			}
 		}
-		if parkedWorker >= 0 {
-			ops = append(ops, opT{kUnstall, parkedWorker, 0}) // the stalled read returns
+		if parkedReader >= 0 {
+			ops = append(ops, opT{kUnstall, parkedReader, 0}) // the stalled read returns
 		}
-		// time passes: 4, 6 or 10 units (timeout = 10 units)
-		if timeout > 0 {
+		if rc.closeParked {
+			ops = append(ops, opT{kUnstallClose, 0, 0}) // the underlying closer finishes
+		}
+		// time passes: 4, 6 or 10 units (timeout = 10 units); once the stream is released only
+		// "long enough for any timer" is of interest
+		if timeout > 0 && !released {
 			ops = append(ops, opT{kSleep, 0, 4}, opT{kSleep, 0, 6}, opT{kSleep, 0, 10})
+		} else if timeout > 0 {
+			ops = append(ops, opT{kSleep, 0, 10})
 		} else {
 			ops = append(ops, opT{kSleep, 0, 20})
 		}
@@ -281,17 +327,22 @@ func verifC11Streamer(steps int, twin bool) {
 			}
 			w.cmd <- vC11Read
 			verifSettle()
-			if expired {
+			timedOut := w.n == 0 && w.err == ErrSnapshotReaderTimeout && rc.reads == reads0
+			passed := rc.reads == reads0+1 && w.n == n && w.err == rerr
+			if raceUnknown {
+				verifReach("read-after-race")
+				verifAssert("C11-read-after-race", w.done == done0+1 && (timedOut || passed))
+			} else if expired {
 				verifReach("read-after-expiry")
 				verifAssert("C11-read-after-expiry-returns", w.done == done0+1)
 				verifAssert("C11-read-after-expiry-timeout-error", w.n == 0 && w.err == ErrSnapshotReaderTimeout)
 				verifAssert("C11-read-after-expiry-does-not-touch-reader", rc.reads == reads0)
 			} else if op.kind == kStall {
 				verifAssert("C11-read-reaches-underlying-reader", rc.parked && rc.reads == reads0+1 && w.busy)
-				parkedWorker = op.g
+				parkedReader = op.g
 				verifReach("read-stalled")
 			} else {
-				verifAssert("C11-read-passes-through", w.done == done0+1 && rc.reads == reads0+1 && w.n == n && w.err == rerr)
+				verifAssert("C11-read-passes-through", w.done == done0+1 && passed)
 				if n > 0 && !userClosed {
 					lastAct = now()
 				}
@@ -303,9 +354,9 @@ func verifC11Streamer(steps int, twin bool) {
 			parkCh <- struct{}{}
 			parkCh = nil
 			verifSettle()
-			parkedWorker = -1
+			parkedReader = -1
 			verifAssert("C11-stalled-read-returns", w.done == done0+1 && !w.busy)
-			if expired {
+			if expired || raceUnknown {
 				verifReach("stalled-read-outlived-expiry")
 			} else {
 				verifAssert("C11-stalled-read-result", w.n == n && w.err == rerr)
@@ -313,28 +364,66 @@ func verifC11Streamer(steps int, twin bool) {
 					lastAct = now()
 				}
 			}
-		case kClose:
+		case kClose, kRaceClose:
 			w := ws[op.g]
 			done0 := w.done
 			first := !released
+			race := op.kind == kRaceClose
+			if race {
+				// no settling between the clock reaching the instant and the Close: the timer
+				// callback and the Close run in either order
+				time.Sleep(time.Duration(lastAct + int64(timeout) - now()))
+			}
 			w.cmd <- vC11Close
 			verifSettle()
-			verifAssert("C11-close-never-blocks", w.done == done0+1)
-			if first {
-				verifReach("closed-by-user")
-				userClosed = true
-				verifAssert("C11-first-close-returns-underlying-result", w.err == rc.closeErr)
-			} else {
-				verifReach("close-after-release")
-				verifAssert("C11-repeated-close-is-a-noop", w.err == nil)
+			if race {
+				verifReach("close-races-expiry")
+				userClosed, raceUnknown = true, true
 			}
+			if w.done == done0+1 {
+				switch {
+				case race:
+					verifAssert("C11-racing-close-result", w.err == nil || w.err == rc.closeErr)
+				case first:
+					verifReach("closed-by-user")
+					userClosed = true
+					verifAssert("C11-first-close-returns-underlying-result", w.err == rc.closeErr)
+				default:
+					verifReach("close-after-release")
+					verifAssert("C11-repeated-close-is-a-noop", w.err == nil)
+				}
+			} else {
+				// it may only be waiting for the underlying closer (its own call, or the one made
+				// by whoever is releasing the stream right now)
+				verifAssert("C11-close-waits-only-for-close-in-progress", rc.closeParked)
+				if first && !race {
+					userClosed = true
+					firstCloser = op.g
+				}
+				if !first {
+					verifReach("close-waits-for-release-in-progress")
+				}
+				pendingClosers = append(pendingClosers, op.g)
+			}
+		case kUnstallClose:
+			rc.closePark <- struct{}{}
+			verifSettle()
+			for _, pg := range pendingClosers {
+				verifAssert("C11-pending-close-completes", !ws[pg].busy)
+				if pg == firstCloser {
+					verifAssert("C11-first-close-returns-underlying-result", ws[pg].err == rc.closeErr)
+				} else if !raceUnknown {
+					verifAssert("C11-repeated-close-is-a-noop", ws[pg].err == nil)
+				}
+			}
+			pendingClosers, firstCloser = nil, -1
 		case kSleep:
 			time.Sleep(time.Duration(int64(op.arg) * verifUnit))
 			verifSettle()
 			if userClosed && timeout > 0 && now()-lastAct >= int64(timeout) {
 				verifReach("timer-after-user-close")
 			}
-			if parkedWorker >= 0 && timeout > 0 && !userClosed && now()-lastAct >= int64(timeout) {
+			if parkedReader >= 0 && timeout > 0 && !userClosed && now()-lastAct >= int64(timeout) {
 				verifReach("stalled-consumer-force-closed")
 			}
 		}
@@ -343,7 +432,7 @@ func verifC11Streamer(steps int, twin bool) {
 }
 
 func VerifC11Streamer() {
-	k := 4
+	k := 3
 	if verifTier() == 1 {
 		k = 6
 	}
